@@ -23,8 +23,8 @@ LEAN_MODULES = ['MpycV.Props.C24']
 LEAN_NAMESPACES = ['MpycV.C24']
 REQUIRED_THEOREMS = [
     'is_irreducible_correct', 'is_irreducible_iff_no_factor', 'reducible_detected', 'bin_is_irreducible_correct',
-    'next_irreducible_spec', 'find_irreducible_spec', 'find_irreducible_degree', 'search_terminates',
-    'next_irreducible_never_X', 'next_irreducible_skips_X_witness',
+    'next_irreducible_spec', 'find_irreducible_spec', 'find_irreducible_degree', 'find_irreducible_one',
+    'skipped_multiples_not_irreducible', 'search_terminates',
     'bin_next_irreducible_spec', 'bin_find_irreducible_spec', 'GF_accepts_iff', 'bin_GF_accepts_iff',
     'table_p2_deg6', 'table_p3_deg3', 'table_p5_deg2', 'table_p7_deg2', 'table_bin_deg6',
 ]
@@ -59,11 +59,12 @@ TRUSTED = ['harness/gfpx_oracle.py (trial division, sieve, Rabin test)', 'lean/D
            'native compilation (lean -c + leanc) of the driver, cross-checked against the interpreter on a probe '
            'in every run (see props/c23.py prepare_driver)']
 
-# Known genuine deviation of the real code (reported once, minimal instance; the Lean model transcribes it):
+# Former genuine deviation of the real code, FIXED in /repo by commit f8e05fb (the oracle still recognises it and
+# would report it under this key if it came back; the Lean model transcribes the fixed loop):
 KNOWN_DEVIATIONS = {
-    'C24-next-irreducible-skips-x': 'for odd p the generic _next_irreducible skips every multiple of x including x itself: '
-                                    'GF(3): next_irreducible(0) = x+1 (expected x), finfields.find_irreducible(3, 1) = x+1 '
-                                    '(expected x); for p = 2 (BinaryPolynomial) x is returned.',
+    'C24-next-irreducible-skips-x': 'FIXED (f8e05fb): for odd p the generic _next_irreducible skipped every multiple of x '
+                                    'including x itself: GF(3): next_irreducible(0) gave x+1 (expected x), '
+                                    'finfields.find_irreducible(3, 1) gave x+1 (expected x).',
 }
 FINDING_X = 'C24-next-irreducible-skips-x'
 FUEL = 100000
